@@ -124,8 +124,15 @@ impl FolderMerge for Folder {
                             if let FolderMergeOptions::Search(
                                 folder_id,
                                 index,
-                            ) = &options
+                            ) = &mut options
                             {
+                                // The events are replayed on top of the
+                                // local changes so the secret may already
+                                // exist, remove the existing document
+                                // otherwise it would be stale as `prepare()`
+                                // and `commit()` are for new documents
+                                index.remove(folder_id, id);
+
                                 Some(
                                     index.prepare(
                                         folder_id, id, &meta, &secret,
